@@ -611,11 +611,20 @@ func (g *C15Gen) sign(from *Actor, t types.TxType, to *common.Address, amount *b
 }
 
 // WithGas re-signs the tx of an action with a MaxFee that buys exactly `gas` units (same nonce).
-func (g *C15Gen) WithGas(a *C15Action, gas int64) *C15Action {
+func (g *C15Gen) WithGas(a *C15Action, gas int64) *C15Action { return g.WithGasRem(a, gas, 0) }
+
+// WithGasRem: the MaxFee buys `gas` whole units and leaves remPermille/1000 of the price of one
+// more unit over (a fraction of a unit buys nothing).
+func (g *C15Gen) WithGasRem(a *C15Action, gas int64, remPermille int64) *C15Action {
 	tx := a.Tx
 	probe := &types.Transaction{AccountNonce: tx.AccountNonce, Epoch: tx.Epoch, Type: tx.Type, To: tx.To, Amount: tx.Amount, Payload: tx.Payload, Tips: tx.Tips}
 	b := *a
-	b.Tx = SignedTx(a.From, tx.Type, tx.To, tx.Amount, g.exactMaxFee(probe, gas), tx.Tips, tx.AccountNonce, tx.Epoch, tx.Payload)
+	mf := g.exactMaxFee(probe, gas)
+	if remPermille > 0 {
+		fpg := g.W.View().AppState.State.FeePerGas()
+		mf = new(big.Int).Add(mf, new(big.Int).Div(new(big.Int).Mul(fpg, big.NewInt(remPermille)), big.NewInt(1000)))
+	}
+	b.Tx = SignedTx(a.From, tx.Type, tx.To, tx.Amount, mf, tx.Tips, tx.AccountNonce, tx.Epoch, tx.Payload)
 	b.GasClass = "sweep"
 	b.Submit = false
 	return &b
